@@ -31,6 +31,20 @@ def inventory(run, lib, ev):
                 n += 1
                 v = rv["variant"]
                 ok, why = _provenance(lib, ev, body, s, v, [term_of(body, o) for o in rv["ops"]])
+                if not ok and body.kind == "closure":
+                    # a closure handed to an iterator adapter sees its item only as a parameter: judge the site where the
+                    # closure runs, in the owner's normal form (adapters made explicit, the closure spliced in)
+                    owner = lib.bodies.get(body.name.split("::{closure")[0])
+                    if owner is not None:
+                        from .common import normal_form
+                        nf = normal_form(lib, owner)
+                        spn = (s.node.get("span") or {}).get("s")
+                        twins = [s2 for s2 in nf.assigns() if s2.node["rv"]["k"] == "agg" and s2.node["rv"].get("adt") == "parser::ParserError" and
+                                 s2.node["rv"]["variant"] == v and spn is not None and (s2.node.get("span") or {}).get("s") == spn]
+                        if twins:
+                            res = [_provenance(lib, ev, nf, s2, v, [term_of(nf, o) for o in s2.node["rv"]["ops"]]) for s2 in twins]
+                            if all(x[0] for x in res):
+                                ok, why = True, res[0][1] + " (closure judged where the adapter chain runs it)"
                 run.ob("R8.2.error-constructor", "%s: ParserError::%s" % (body.name, v), ok, why, site=s,
                        key="R8.2|%s|%s|%s" % (body.name, v, "ok" if ok else norm(why)[:60]))
         for s in body.sites():
